@@ -330,3 +330,23 @@ Example C16_example_singular :
       Outline 0; Outline 5; Outline 51; Outline 52]%N
   /\ hidden_ids ex_hidden_tree = [2; 21; 22]%N.
 Proof. vm_compute. split; reflexivity. Qed.
+
+(* Tables (Appendix E step 7: "the inline content of block-level boxes AND table cells, in
+   tree order").  root > [ table 1 > row 2 > [ cell 3 "t32" ; cell 4 > block 5 "t52" ] ; block 6 "t62" ]:
+   a cell is dispatched to blocksAndCells only (stacking.go:151-154), so the insertion index of a
+   later block in blocksAndCells is NOT its index in blocks; the texts come out in tree order
+   (with the index of `blocks` block 5 and block 6 would be inserted before the cells: 52, 62, 32) *)
+Definition ex_part (id : N) (k : kind) (cs : list box) := Box (mkB id k false None false false false false 0 false) cs.
+Definition ex_table_tree : box :=
+  ex_block 0 false None
+    [ ex_part 1 KTable [ ex_part 2 KOther
+        [ ex_part 3 KTableCell [ex_line 31 [ex_leaf 32]];
+          ex_part 4 KTableCell [ex_block 5 false None [ex_line 51 [ex_leaf 52]]] ] ];
+      ex_block 6 false None [ex_line 61 [ex_leaf 62]] ].
+
+Example C16_example_table_cells :
+  wf_shape ex_table_tree = true /\
+  res_map (filter (fun e => match e with Content _ => true | _ => false end)) (paint (from_box ex_table_tree))
+  = Ok [Content 32; Content 52; Content 62]%N /\
+  paint (from_box ex_table_tree) = Ok (spec_paint impl_forms_ctx css_level (isort (fun b => css_level (binfo_of b))) ex_table_tree).
+Proof. vm_compute. repeat split; reflexivity. Qed.
